@@ -65,13 +65,14 @@ const (
 	ORollback
 	OClose
 	OReopen
-	OBeginRO // read-only transaction scanning everything
-	OMark    // marker in the trace (twin runs)
-	OProbe   // capacity probe (bounded files)
+	OBeginRO      // read-only transaction scanning everything
+	OMark         // marker in the trace (twin runs)
+	OProbe        // capacity probe (bounded files)
+	OReopenResize // close, reopen with FlagUpdMaxSize (A selects the new size)
 	numOpKinds
 )
 
-var opNames = [...]string{"begin", "alloc", "write", "read", "free", "flushpage", "flushtx", "checkpoint", "setroot", "commit", "rollback", "close", "reopen", "beginro", "mark", "probe"}
+var opNames = [...]string{"begin", "alloc", "write", "read", "free", "flushpage", "flushtx", "checkpoint", "setroot", "commit", "rollback", "close", "reopen", "beginro", "mark", "probe", "reopen-resize"}
 
 func (k OpKind) String() string { return opNames[k] }
 
@@ -204,6 +205,7 @@ type World struct {
 
 	Commits, Aborts, Reopens, Writes, Allocs, Frees, OOMs int
 	failed                                                bool
+	opened                                                bool   // the file has been opened at least once
 	lenSeed                                               uint64 // derives default lengths of partial writes (set per op, equal in twin runs)
 	KeepTrace                                             bool   // keep the complete trace in memory
 	lastErr                                               error  // error behind the most recent operation-level violation
@@ -280,6 +282,11 @@ func (w *World) Open() bool {
 	}
 	var err error
 	w.Disk.Reopenable()
+	prevTxid := w.LastTxid
+	if w.Markers && w.opened {
+		// an Open may run maintenance transactions (max size update): window of its own
+		w.Disk.Marker("open-begin", int64(prevTxid))
+	}
 	if w.guard("Open", func() { w.F, err = txfile.VerifOpenWith(w.Disk, opts, w.Hook) }) {
 		return false
 	}
@@ -291,12 +298,22 @@ func (w *World) Open() bool {
 	snap := w.F.VerifSnapshot()
 	w.LastTxid = snap.Headers[snap.MetaActive].Txid
 	if w.KeepStates {
-		st := w.Committed.clone()
-		st.Txid = w.LastTxid
-		w.States[w.LastTxid] = st
+		from := w.LastTxid
+		if w.opened && prevTxid < w.LastTxid && w.LastTxid-prevTxid <= 4 {
+			from = prevTxid + 1 // header txids written by open-time transactions: same contents
+		}
+		for t := from; t <= w.LastTxid; t++ {
+			st := w.Committed.clone()
+			st.Txid = t
+			w.States[t] = st
+		}
 	}
+	if w.Markers && w.opened {
+		w.Disk.Marker("open-ok", int64(w.LastTxid))
+	}
+	w.opened = true
 	w.checkQuiescent("open")
-	return true
+	return !w.failed
 }
 
 func kindOf(err error) string {
